@@ -28,10 +28,15 @@ func opLabels(n *shape.Node) []string {
 }
 
 // underestimating reports whether the sub-program contains an operator whose
-// field is documented / known not to be a distance bound (non-uniform scale,
-// twisting and scaling extrusions, lofts): used only to classify findings.
+// field is not a Euclidean distance bound with a box that stays tight under the
+// operations above it: matrix scaling, twisting / scaling extrusions, lofts, tapered
+// screws, partial revolves (wedge half planes) - and every max-composition (extrusion,
+// intersection, difference, cut, slice), whose offset surface is Chebyshev-like: a box
+// that is enlarged per axis by the offset is exact for it only in its own frame, not after a
+// rotation. Used only to classify findings.
 func underestimating(n *shape.Node) bool {
-	return n.Has("nuscale2", "nuscale3", "twist", "scaleext", "scaletwist", "loft", "screw", "revolvetheta")
+	return n.Has("nuscale2", "nuscale3", "twist", "scaleext", "scaletwist", "loft", "screw", "revolvetheta",
+		"extrude", "extround", "diff2", "diff3", "isect2", "isect3", "cut2", "cut3", "slice2")
 }
 
 // culprit finds the bottom-most node whose own built object is negative at the
